@@ -149,6 +149,34 @@ func c11Scenarios() []ConcScenario {
 			}
 		}
 	}
+	// many tunnels are open and stay open; one more tunnel ends (in the middle of its channel request, or after its
+	// channel exists): its resources are released while the others live. One (lockstep) schedule each.
+	for _, n := range []int{16, 64} {
+		for _, xkind := range []string{"ws", "legacy"} {
+			for _, ending := range []string{"send:cc+drop", "cc+drop", "cc+close"} {
+				sc := ConcScenario{Name: fmt.Sprintf("many/%d-open+%s/%s", n, xkind, ending), RoundRobin: true, Deviation: true, MaxSteps: 400000}
+				x := TunnelPlan{Kind: xkind, ConnID: "X", User: "ux", IP: "10.9.0.1", Host: "hx.example:3389"}
+				switch ending {
+				case "send:cc+drop":
+					x.StopAt, x.Script = "ta", []string{"settle", "send:cc", "drop", "settle", "probe", "signal:probed", "idle"}
+				case "cc+drop":
+					x.Script = []string{"data:abc", "settle", "drop", "settle", "probe", "signal:probed", "idle"}
+				case "cc+close":
+					x.Script = []string{"data:abc", "settle", "close", "settle", "probe", "signal:probed", "idle"}
+				}
+				sc.Plans = append(sc.Plans, x)
+				for i := 0; i < n; i++ {
+					kind := "ws"
+					if i%3 == 1 {
+						kind = "legacy"
+					}
+					sc.Plans = append(sc.Plans, TunnelPlan{Kind: kind, ConnID: fmt.Sprintf("T%02d", i), User: fmt.Sprintf("u%02d", i), IP: fmt.Sprintf("10.0.%d.1", i+1), Host: fmt.Sprintf("h%02d.example:3389", i),
+						Script: []string{"data:abc", "wait:probed", "drop", "idle"}})
+				}
+				out = append(out, sc)
+			}
+		}
+	}
 	return out
 }
 
@@ -163,6 +191,22 @@ func c11Check(sc ConcScenario) func(res *ConcResult, races []RaceReport) (string
 		t := res.Tunnels[0]
 		if t.SetupFailed != "" {
 			out.WriteString("setup:" + t.SetupFailed + " ")
+		}
+		if strings.HasPrefix(sc.Name, "many/") {
+			for _, k := range strings.Fields(t.Probe) {
+				if k != "released" {
+					add(k+"/while-other-tunnels-are-open", "tunnel X had ended and the gateway had nothing left to do, the other tunnels still open: "+t.Probe)
+				}
+			}
+			if t.Probe == "" {
+				add("ended-tunnel-never-settles/while-other-tunnels-are-open", "the script of tunnel X did not get to its observation point")
+			}
+			for _, o := range res.Tunnels[1:] {
+				if o.SetupFailed != "" {
+					add("tunnel-not-served/while-other-tunnels-are-open", o.Plan.ConnID+": "+o.SetupFailed)
+					break
+				}
+			}
 		}
 		for i, b := range res.World.Backends {
 			if !b.GwSide.IsClosed() {
@@ -208,7 +252,7 @@ func c11Check(sc ConcScenario) func(res *ConcResult, races []RaceReport) (string
 func c11(env *Env, rep *Report) {
 	scs := c11Scenarios()
 	rep.Rule = fmt.Sprintf("%d scenarios = transports {ws, legacy} x end points {transport open, after handshake, tunnel-create, tunnel-auth, channel-create, with client data / host data / both in flight} x causes {CLOSE_CHANNEL, out-of-order packet, unframeable bytes, client drops the websocket / both legacy connections / only IN / only OUT}; "+
-		"every schedule of client, real handler(s), relay goroutine and backend up to the preemption bound; oracle at quiescence (no thread can move): backend connection closed by the gateway, every hijacked client connection closed by the gateway, no gateway goroutine left, registry empty, gauges restored. Plus, on the real binary after a real OpenID login: the process's descriptor count after nine tunnels (ended by close, drop, protocol error) is back at the level after two warm-up tunnels. distinct_nontrivial = distinct per-schedule observations.", len(scs))
+		"every schedule of client, real handler(s), relay goroutine and backend up to the preemption bound; oracle at quiescence (no thread can move): backend connection closed by the gateway, every hijacked client connection closed by the gateway, no gateway goroutine left, registry empty, gauges restored. Plus 16 and 64 tunnels that stay open while one more tunnel ends (in the middle of its channel request, or with its channel open; lockstep schedule only): what the gateway held for the ended tunnel is released while the others live. Plus, on the real binary after a real OpenID login: the process's descriptor count after nine tunnels (ended by close, drop, protocol error) is back at the level after two warm-up tunnels. distinct_nontrivial = distinct per-schedule observations.", len(scs))
 	rep.Assumptions = append(rep.Assumptions,
 		"'within a bounded time' is evaluated at quiescence: the state in which no thread of the closed system can take a step; the gateway sets no timers on tunnel connections, so nothing further can happen after it",
 		"connections are unbounded in-memory pipes (no write ever blocks)")
@@ -239,6 +283,10 @@ func c11(env *Env, rep *Report) {
 		}
 		e2 := *env
 		e2.Shard, e2.NShards = 0, 1
-		exploreConc(&e2, rep, sc, bound, nil, c11Check(sc))
+		b := bound
+		if strings.HasPrefix(sc.Name, "many/") {
+			b = 0
+		}
+		exploreConc(&e2, rep, sc, b, nil, c11Check(sc))
 	}
 }
